@@ -16,10 +16,13 @@ import Klev.Proofs.Witness
 import Klev.Proofs.WitnessBytes
 namespace Klev.C06
 
-/-- Sync fsyncs the log and then the index of the head; the old head is fsynced before a new
+/-- Sync fsyncs the log and then the index of the head, and does so in one critical section of
+the writer lock together with the reading of the offset it reports (so the offset acknowledged is
+one the fsync covered, whatever publishes run concurrently); the old head is fsynced before a new
 segment is created; rewritten / recovered / migrated files are fsynced before rename. -/
 theorem source_facts :
-    Gen.syncLogThenIndex = true ∧ Gen.rolloverSyncsOldHead = true ∧ Gen.syncBeforeRename = true := by
+    Gen.syncLogThenIndex = true ∧ Gen.syncUnderWriterLock = true ∧ Gen.rolloverSyncsOldHead = true ∧
+    Gen.syncBeforeRename = true := by
   decide
 
 /-- The records that were fsynced (a prefix `ms` of the head's records) survive whatever
